@@ -413,3 +413,48 @@ func TestFairTailLetsSpinLocksFinish(t *testing.T) {
 		}
 	}
 }
+
+// TestCond: a condition variable hands over under every schedule; waiting for
+// a condition only the waiter itself could make true is a deadlock.
+func TestCond(t *testing.T) {
+	for seed := uint64(0); seed < 300; seed++ {
+		s := simrt.New(tape.New(seed), simrt.Strategy{Kind: int(seed % 3), PreemptPM: 300, Depth: 2, Horizon: 40})
+		var mu simsync.Mutex
+		cond := simsync.NewCond(&mu)
+		ready, data, got := false, 0, 0
+		s.Go("consumer", func() {
+			mu.Lock()
+			for !ready {
+				cond.Wait()
+			}
+			simrt.R(&data, "data")
+			got = data
+			mu.Unlock()
+		})
+		s.Go("producer", func() {
+			simrt.W(&data, "data")
+			data = 42
+			mu.Lock()
+			ready = true
+			mu.Unlock()
+			cond.Signal()
+		})
+		if !s.Run() || len(s.Viol) != 0 || got != 42 {
+			t.Fatalf("seed %d: %v got=%d", seed, s.Viol, got)
+		}
+	}
+	s := simrt.New(tape.New(1), simrt.Strategy{})
+	var mu simsync.Mutex
+	cond := simsync.NewCond(&mu)
+	running := 1
+	s.Go("self", func() {
+		mu.Lock()
+		for running > 0 {
+			cond.Wait() // only this task would ever decrement running
+		}
+		mu.Unlock()
+	})
+	if s.Run() || len(s.Viol) == 0 || s.Viol[0].Class != "deadlock" {
+		t.Fatalf("self-wait not reported as deadlock: %v", s.Viol)
+	}
+}
